@@ -197,6 +197,49 @@ func TestVerifState(t *testing.T) {
 					bad = append(bad, fmt.Sprintf("conf/all/forwarding=%s conf/lo/forwarding=%s: IPv6Forwarding(lo) = %v", tc.all, tc.lo, got))
 				}
 			}
+			// only the interface's own `forwarding` / `autoconf` files decide: every other switch of the interface (and of
+			// conf/all, conf/default) that reads 0 is set to 1 in turn while forwarding is 0 -- force_forwarding, proxy_ndp,
+			// accept_ra ... -- and the answer stays "not forwarding"
+			_ = w("all", "0")
+			_ = w("lo", "0")
+			for _, dir := range []string{"lo", "all", "default"} {
+				ents, _ := os.ReadDir(filepath.Join("/proc/sys/net/ipv6/conf", dir))
+				for _, e := range ents {
+					if (e.Name() == "forwarding" && dir != "default") || e.Name() == "disable_ipv6" {
+						continue // (conf/all/forwarding is covered above: writing it rewrites every interface)
+					}
+					f := filepath.Join("/proc/sys/net/ipv6/conf", dir, e.Name())
+					old, err := os.ReadFile(f)
+					if err != nil || string(old) != "0\n" || os.WriteFile(f, []byte("1"), 0o644) != nil {
+						continue
+					}
+					if cur, _ := os.ReadFile(filepath.Join("/proc/sys/net/ipv6/conf/lo/forwarding")); string(cur) == "0\n" {
+						if got, err := NewState().IPv6Forwarding("lo"); err != nil || got {
+							bad = append(bad, fmt.Sprintf("conf/lo/forwarding=0 and conf/%s/%s=1: IPv6Forwarding(lo) = %v, %v", dir, e.Name(), got, err))
+						}
+					}
+					_ = os.WriteFile(f, []byte("0"), 0o644)
+				}
+			}
+			// a forwarding read that cannot be made (no file descriptor left) right after a flip is an error, never the
+			// value read before the flip
+			_ = w("lo", "1")
+			stx := NewState()
+			if on, err := stx.IPv6Forwarding("lo"); err == nil && on {
+				_ = w("lo", "0")
+				var lim syscall.Rlimit
+				if syscall.Getrlimit(syscall.RLIMIT_NOFILE, &lim) == nil {
+					zero := lim
+					zero.Cur = 0
+					if syscall.Setrlimit(syscall.RLIMIT_NOFILE, &zero) == nil {
+						got, err := stx.IPv6Forwarding("lo")
+						_ = syscall.Setrlimit(syscall.RLIMIT_NOFILE, &lim)
+						if err == nil && got {
+							bad = append(bad, "forwarding was switched off, the next read could not open the file (RLIMIT_NOFILE 0) and answered: forwarding")
+						}
+					}
+				}
+			}
 			// an interface index is not an identity: the interface a State was asked about is deleted and another one
 			// is created under the same index -- a write for the old NAME fails with "not exist" and touches nobody else
 			ip := func(arg ...string) error {
